@@ -161,7 +161,7 @@ CHECKS["C16"] = dict(
          "panic; cyclic symbols / recursive macros end in an error at depth 64; all model functions are total. Not expressible in Gallina: "
          "native stack depth, time, allocator - exercised by ./check C16: every case in an isolated worker (3 GB limit, watchdog), "
          "bounded-exhaustive single-line programs (153 heads x 0-2 operands from a 43-entry hostile dictionary), structural extremes, "
-         "mutated programs, 64 KiB repeated-line programs and lines with unbalanced parentheses answered within 3 s; three deep-nesting inputs and a self-calling macro that doubles its argument are open known findings. C16_no_truncation / C16_counter_bounded: an advance that reaches 2^32 is an error whatever its size; accepted counters stay below 2^32." + PROG,
+         "mutated programs, 64 KiB repeated-line programs and lines with unbalanced parentheses answered within 3 s; three deep-nesting inputs are open known findings; C16_expansion_size_bounded: an expansion line above 64 KiB is an error (self-calling macros with growing arguments end). C16_no_truncation / C16_counter_bounded: an advance that reaches 2^32 is an error whatever its size; accepted counters stay below 2^32." + PROG,
     note=BASE + " The remaining Panic sites of the model are the 32-bit additions of pass 2, unreachable after pass 1's check (not proved). "
          "'Promptly' is operationalised as 3 s (two tries) in the debug worker for 64 KiB - the bound of the quantifier - of one kind of "
          "line each; everything else runs under a 10 s watchdog.",
